@@ -130,6 +130,19 @@ func (r *runner) exec(j job) {
 	if j.tail > 0 {
 		data = append(append([]byte{}, base...), make([]byte, j.tail)...)
 	}
+	// an earlier detection of the same kind that was ABORTED by its source (it ends after 1, s/2 or s-1 all-pass
+	// samples) must leave nothing behind - counters, Q-values, buffers - that the judged call could inherit
+	if k := descHash(j.desc) % 4; k > 0 {
+		pre := []int{0, 1, w.S / 2, w.S - 1}[k]
+		prun := seam.NewRun(seam.NewScenario("aborted-earlier-run", w.S))
+		pdata := prun.Stream(pre, w.N)
+		pv0, perr := w.Seq(&seam.Source{Data: append(pdata, 1, 2, 3)})
+		prun.Close()
+		if pv0 || perr == nil {
+			r.ctx.Report(fmt.Sprintf("%s/aborted-run", w.Name), fmt.Sprintf("%s returned (%v, %v) on a stream that ends after %d samples and 3 bytes", w.Name, pv0, perr, pre), nil)
+		}
+		r.sigs.Add(fmt.Sprintf("after-aborted-run/%s/%d", w.Name, k))
+	}
 	src := &seam.Source{Data: data}
 	// a stream that ends exactly after the s samples: in every second scenario the final Read reports
 	// io.EOF together with its bytes (allowed by io.Reader), which must not change anything
@@ -202,6 +215,14 @@ func (r *runner) exec(j job) {
 		r.sample = append(r.sample, map[string]interface{}{"workflow": w.Name, "scenario": j.desc, "model_verdict": d.Verdict, "violators": fmt.Sprint(d.Violators), "returned": verdict, "error": fmt.Sprint(err)})
 	}
 	r.mu.Unlock()
+}
+
+func descHash(s string) int {
+	h := 0
+	for _, c := range []byte(s) {
+		h = (h*131 + int(c)) & 0xffffff
+	}
+	return h >> 3
 }
 
 func descParity(s string) bool {
